@@ -23,8 +23,7 @@ Proof. exact c07_okb_spec. Qed.
 Print Assumptions C07_spec_executable.
 
 (* rules: the whole property, for every document that is a map and whose detection items stay in the
-   modelled fragment of the modifier machinery (rule_dom: `re` meets strings only - finding
-   re-nonstring-value otherwise - and wide/utf16/utf16be meet ASCII text only) *)
+   modelled fragment of the modifier machinery (rule_dom: wide/utf16/utf16be meet ASCII text only) *)
 Theorem C07_rule_holds_partial :
   forall L d, rule_dom d = true -> C07_holds (load_rule L false d) (load_rule L true d).
 Proof. exact rule_holds. Qed.
